@@ -175,6 +175,10 @@ func (p *Parser) lookupType(typeName string, pos token.Pos) (*types.Scope, types
 		return inner.LookupParent(names[0], pos)
 	}
 
+	if 2 < len(names) {
+		// Only package-level names can be referred to: pkg.Name, not pkg.Type.Method.
+		return nil, nil
+	}
 	pkgPath, ok := p.imports.LookupPath(names[0])
 	if !ok {
 		return nil, nil
